@@ -37,7 +37,8 @@ impl Spy {
             if let Some(k) = g.fail_at {
                 if n == k || (g.fail_sticky && n > k) {
                     g.failed += 1;
-                    return Err(io::Error::new(io::ErrorKind::Other, "injected terminal failure"));
+                    // the kind of the injected error alternates with the index of the failing call: Other / Interrupted (an interrupted call is still a failed call)
+                    return Err(io::Error::new(if k % 2 == 0 { io::ErrorKind::Interrupted } else { io::ErrorKind::Other }, "injected terminal failure"));
                 }
             }
         }
